@@ -141,6 +141,7 @@ type Exec struct {
 	nameCount map[string]int
 	pureTyped map[string]bool
 	idxStack  []*types.Var
+	mapRangeDepth int
 	ifaceAsked map[string]types.Type
 	implDone   map[string]bool
 	neutralMemo map[*types.Func]int
@@ -1674,6 +1675,11 @@ func (e *Exec) rangeStmt(st *State, s *ast.RangeStmt, label string) {
 	// call-site clauses inside the body may refer to the index of the innermost enclosing range loop
 	e.idxStack = append(e.idxStack, idx)
 	defer func() { e.idxStack = e.idxStack[:len(e.idxStack)-1] }()
+	// ... and ask whether they run in map iteration order (inmaprange())
+	if _, overMap := xv.GT.Underlying().(*types.Map); overMap {
+		e.mapRangeDepth++
+		defer func() { e.mapRangeDepth-- }()
+	}
 	var keyObj, valObj types.Object
 	lhsObj := func(x ast.Expr) types.Object {
 		if x == nil {
